@@ -66,7 +66,7 @@ structure Site where
 deriving Repr
 
 /-- how the program ends after its last site -/
-inductive Fin | exit (code : Nat) | abort (sig : Nat)
+inductive Fin | exit (code : Nat) | abort (sig : Nat) (nthreads : Nat)
 deriving DecidableEq, Repr
 
 structure Prog where
@@ -201,10 +201,10 @@ def maskOf (d : Dr7) : Nat :=
 def mainDr (s : St) : Option Dr7 :=
   if s.proc.alive then s.proc.threads.head?.map (·.dr7) else none
 
-/-- `state.sync(t)` for every tracee -/
+/-- `state.sync(t)` for every tracee (the log keeps the writes that change a thread's DR7) -/
 def syncAll (s : St) (d : Dr7) : St :=
   { s with proc := { s.proc with threads := s.proc.threads.map fun t => { t with dr7 := d } },
-           log := s.log ++ List.replicate s.proc.threads.length (Ev.dr (maskOf d)) }
+           log := s.log ++ (s.proc.threads.filter fun t => maskOf t.dr7 != maskOf d).map fun _ => Ev.dr (maskOf d) }
 
 def firstFree (d : Dr7) : Option Nat :=
   if !d 0 then some 0 else if !d 1 then some 1 else if !d 2 then some 2 else if !d 3 then some 3 else none
@@ -293,7 +293,9 @@ def threadsAt (ts : List Thread) (n : Nat) (d : Dr7) : List Thread :=
   ((ts.take n) ++ List.replicate (n - ts.length) ({ dr7 := d } : Thread)).map fun t => { t with run := Run.stopped }
 
 def stopAt (s : St) (n : Nat) : St :=
-  { s with proc := { s.proc with threads := threadsAt s.proc.threads n (s.lastSeen.getD Dr7.clear) } }
+  let d := s.lastSeen.getD Dr7.clear
+  { s with proc := { s.proc with threads := threadsAt s.proc.threads n d },
+           log := s.log ++ (if maskOf d != 0 then List.replicate (n - s.proc.threads.length) (Ev.dr (maskOf d)) else []) }
 
 /-- `step_over_breakpoint` -/
 def stepOver (s : St) : St :=
@@ -325,9 +327,10 @@ def onKilled (s : St) (g : Nat) : St :=
 def finish (s : St) : St × Out :=
   match s.prog.fin with
   | .exit c => (onExit s c, .exit c)
-  | .abort g =>
+  | .abort g n =>
     if s.proc.sigStop then (onKilled s g, .err)
-    else ({ s with proc := { s.proc with sigStop := true } }, .signal g)
+    else let s1 := stopAt s n
+      ({ s1 with proc := { s1.proc with sigStop := true } }, .signal g)
 
 /-- the loop of `continue_execution` -/
 def traceLoop : Nat → St → St × Out
